@@ -137,6 +137,8 @@ def make_plugin(w: World, tag: str = 'G'):
                 info['script_id'] = ident_of(ra.statement) if ra else None
                 info['trace_threads'] = ra.trace_threads if ra else None
                 info['trace_modules'] = ra.trace_modules if ra else None
+            if hook in ('on_start_run', 'on_initialize_run'):
+                info.update(shown(w))
             if hook == 'on_initialize_run' and ra is not None:
                 info['script_id'] = ident_of(ra.statement)
                 info['trace_threads'] = ra.trace_threads
@@ -170,6 +172,20 @@ def make_plugin(w: World, tag: str = 'G'):
     for h in HOOKS_ASYNC:
         setattr(GatePlugin, h, mk(h))
     return GatePlugin()
+
+
+def shown(w: World) -> dict:
+    """what the object has on display: the identifier of the script according to each reporting call"""
+    nl = w.nl
+    out = {}
+    try:
+        out['shown_statement'] = ident_of(nl.statement)
+        src = nl.get_source()
+        out['shown_source'] = ident_of('\n'.join(src))
+        out['shown_lines'] = ident_of('\n'.join(nl.get_source_line(i + 1) for i in range(len(src))))
+    except Exception as e:       # a reporting call that raises is itself worth seeing
+        out['shown_error'] = type(e).__name__
+    return out
 
 
 def ident_of(statement) -> str | None:
@@ -470,6 +486,9 @@ async def run_scenario(w: World):
                 w.log(k='await_timeout', task=name)
         elif op == 'subscribe':
             open_subs(w, tag=step[1] if len(step) > 1 else '#2')
+        elif op == 'peek':
+            # read-only: a client looking at the object (statement, source, run number, state)
+            w.log(k='peek', run_no=getattr(w.nl, 'run_no', None), **shown(w))
         elif op == 'cancel_task':
             t = w.task_objs.get(step[1])
             if t:
